@@ -43,6 +43,7 @@ type spec struct {
 	P2   *p2spec `json:"p2,omitempty"`
 	P3   *p3spec `json:"p3,omitempty"`
 	P4   *p4spec `json:"p4,omitempty"`
+	P5   *p5spec `json:"p5,omitempty"`
 }
 
 func runSpec(sp spec) outcome {
@@ -55,6 +56,8 @@ func runSpec(sp spec) outcome {
 		return runPart3(*sp.P3)
 	case 4:
 		return runPart4(*sp.P4)
+	case 5:
+		return runPart5(*sp.P5)
 	}
 	return outcome{Key: "bad-spec"}
 }
@@ -69,6 +72,8 @@ func (sp spec) nontrivial() bool {
 		return sp.P3.Strat != "honest"
 	case 4:
 		return sp.P4.Op != "none"
+	case 5:
+		return true
 	}
 	return false
 }
@@ -83,6 +88,8 @@ func (sp spec) classKey() string {
 		return "3/" + sp.P3.Strat
 	case 4:
 		return "4/" + sp.P4.kind()
+	case 5:
+		return "5/concurrent-writers"
 	}
 	return "?"
 }
@@ -125,6 +132,10 @@ func main() {
 		p := p
 		specs = append(specs, spec{Part: 4, P4: &p})
 	}
+	for _, p := range part5Specs(quick) {
+		p := p
+		specs = append(specs, spec{Part: 5, P5: &p})
+	}
 	for _, p := range part3Specs(quick) {
 		p := p
 		specs = append(specs, spec{Part: 3, P3: &p})
@@ -147,7 +158,7 @@ func main() {
 		specs = keep
 		r.Exhaustive = false
 	}
-	stats := map[int]*partStat{1: newPartStat(), 2: newPartStat(), 3: newPartStat(), 4: newPartStat()}
+	stats := map[int]*partStat{1: newPartStat(), 2: newPartStat(), 3: newPartStat(), 4: newPartStat(), 5: newPartStat()}
 	planned := map[int]int{}
 	for _, sp := range specs {
 		planned[sp.Part]++
@@ -261,18 +272,20 @@ func main() {
 		r.AddSample(sp)
 	}
 	cov := map[string]any{
-		"evaluations":         evals,
-		"distinct_nontrivial": nontriv,
-		"rule":                "one evaluation = one scenario script executed on fresh real endpoints with its oracle; distinct_nontrivial = number of distinct canonical scenario specs (part + all parameters, JSON) that apply at least one fault / attacker move (parts 2, 3) or whose writes touch the frame-size boundary, are empty, are several, or exceed the read buffer (part 1)",
-		"frame_constants":     map[string]int{"MaxDataSize": maxData, "FrameSize": plainSize, "EncryptedFrameSize": frameSize, "key_message_bytes": kLen},
-		"parts":               per,
-		"part3_outcomes_per_strategy":   p3,
-		"part2_outcomes_per_fault_kind": p2,
-		"part4_scenarios":     stats[4].scenarios,
-		"part4_distinct_outcomes":       len(stats[4].outcomes),
-		"part4_outcomes_per_fault_kind": p4,
-		"flaky_scenarios":     flaky,
-		"information":         info,
+		"evaluations":                       evals,
+		"distinct_nontrivial":               nontriv,
+		"rule":                              "one evaluation = one scenario script executed on fresh real endpoints with its oracle; distinct_nontrivial = number of distinct canonical scenario specs (part + all parameters, JSON) that apply at least one fault / attacker move (parts 2, 3) or whose writes touch the frame-size boundary, are empty, are several, or exceed the read buffer (part 1)",
+		"frame_constants":                   map[string]int{"MaxDataSize": maxData, "FrameSize": plainSize, "EncryptedFrameSize": frameSize, "key_message_bytes": kLen},
+		"parts":                             per,
+		"part3_outcomes_per_strategy":       p3,
+		"part2_outcomes_per_fault_kind":     p2,
+		"part5_concurrent_writer_scenarios": stats[5].scenarios,
+		"part5_outcomes":                    stats[5].outcomes,
+		"part4_scenarios":                   stats[4].scenarios,
+		"part4_distinct_outcomes":           len(stats[4].outcomes),
+		"part4_outcomes_per_fault_kind":     p4,
+		"flaky_scenarios":                   flaky,
+		"information":                       info,
 	}
 	r.Finish(cov)
 }
